@@ -71,4 +71,14 @@ func init() {
 		rule: "one case per (data-movement operation, shape, argument): Slice / Patch with every combination of explicit / omitted / <<0,0>> / whole ranges, block size and position (full product up to rank 2 (3 thorough), one dimension varied above), Concat (every dim, 2 and 3 operands of differing sizes), Reshape (every factorisation), Flatten/Squeeze/UnSqueeze (every dim), Broadcast (every target in the expansion grid), Full/Zeros/Ones/Eye, patch-slice and concat-slice round trips; every tensor is read back through At at every multi-index and compared exactly with iota inputs; distinct = distinct (op, shapes, argument)",
 		assumptions: []string{"element values are the row-major positions (the operations are value-parametric), compared exactly"},
 	}))
+	register("C02", "exploration", symCheck(symSpec{
+		module: "Gen_C02", partsQ: 8, partsT: 16, assignQ: 8, assignT: 20, timeoutT: 60 * time.Minute,
+		rule: "one case per (operation, operand shapes, argument, subset of tracked operands) for the 33 differentiable operations other than Broadcast: y = op(operands), z = y*g with an untracked weighting g, BackPropagate(z); expected gradients are d(sum z)/d(operand) by symbolic differentiation of the operation's definition (no backward rule in the spec); quick grid: Shapes(2,2)+5 shapes up to rank 5 (element-wise ops on 4 shapes), all dims, Slice/Patch index forms (full product to rank 2), Concat 2-3 operands; thorough: Shapes(3,3) U Shapes(5,2); values restricted to each operation's differentiability domain (no max/min ties, x>0 for Log and fractional powers, base 0 included for exponents 0,1,2); distinct = distinct (op, shapes, argument, tracked subset); non-trivial = more than one element",
+		assumptions: []string{"an arbitrary upstream weighting is realised as BackPropagate(y.Mul(g)) with g untracked"},
+	}))
+	register("C07", "exploration", symCheck(symSpec{
+		module: "Gen_C07", partsQ: 8, partsT: 16, assignQ: 6, assignT: 12, timeoutT: 60 * time.Minute,
+		rule: "explicit Broadcast: every source shape x every target of the expansion grid (leading dims added, size-1 dims expanded, both, factor 1); implicit expansion: Add/Sub/Mul/Div over every broadcast-compatible ordered pair of different shapes, Dot and MatMul over compatible batch shapes, every non-empty subset of tracked operands; z = y*g, BackPropagate(z); expected = sum of upstream gradient over copies (by differentiation of the definition); each case with factor > 1 also carries the gradient under the recorded deviation broadcast_grad_mean (want / factor) and is classified as that known finding only if it matches it exactly; distinct = distinct (op, shapes, tracked subset)",
+		assumptions: []string{"known finding D2 (known_findings.json): cases matching the deviation's prediction are counted as the finding, anything else is a violation"},
+	}))
 }
